@@ -46,6 +46,19 @@ theorem decode_encodeUncompressed (e P : Pt L4) (hP : Valid P) :
     Valid (Hand.ElementL.decode e (Hand.ElementL.encodeUncompressed P)).2 ∧
     G (Hand.ElementL.decode e (Hand.ElementL.encodeUncompressed P)).2 = G P := _root_.decode_encodeUncompressed e P hP
 
+/-- **the round trip for the regenerated functions**: `Decode(Encode(P))` computed entirely by the definitions `go2lean`
+produced from `element.go` on this run reports no error and leaves a valid element denoting the same point, for every
+valid `P` in any representation and any prior receiver -/
+theorem roundtrip_regenerated (e P : Pt L4) (hP : Valid P) :
+    (GenDecode.decode DecodeTies.limbBytes Hand.limbOps e (GenDecode.encode DecodeTies.limbBytes Hand.limbOps P)).1 = none ∧
+    Valid (GenDecode.decode DecodeTies.limbBytes Hand.limbOps e (GenDecode.encode DecodeTies.limbBytes Hand.limbOps P)).2 ∧
+    G (GenDecode.decode DecodeTies.limbBytes Hand.limbOps e (GenDecode.encode DecodeTies.limbBytes Hand.limbOps P)).2 = G P := by
+  rw [DecodeTies.encode_tie, DecodeTies.decode_tie]
+  obtain ⟨h1, h2, h3⟩ := _root_.decode_encode e P hP
+  refine ⟨?_, h2, h3⟩
+  show (Hand.ElementL.decode e (Hand.ElementL.encode P)).1.map DecodeTies.errName = none
+  rw [h1]; rfl
+
 /-- the encoders of `element.go`, regenerated from their Go bodies on every run (the local byte array, `affine()` inlined,
 `subtle.ConstantTimeSelect`/`ConstantTimeCopy`, `append`, the final re-slice), are the model the theorems above are about -/
 theorem encoders_tied (e : Pt L4) :
